@@ -174,11 +174,26 @@ Definition piece_id (p : piece) : Z :=
   | PSlurmAll => 9 | PSgePartial => 10 | PPbsPartial => 11 | PSlurmPartial => 12 | PSingle => 13
   | PEnd => 14
   end.
-(* [header range; ids placed in the program; rewrite applied; per execution the ids grown] *)
+(* what can be read off the final script text *)
+Definition shows_ids (s : selection) : bool :=
+  existsb (fun p => match grow_kind_of p with Some GLookup | Some GList => true | _ => false end) (s_pieces s).
+Definition uses_index (s : selection) : bool :=
+  existsb (fun p => match grow_kind_of p with Some GIndex | Some GLookup => true | _ => false end) (s_pieces s).
+Definition is_array_header (p : piece) : bool :=
+  match p with PSgeArrayHeader | PPbsArrayHeader | PSlurmArrayHeader => true | _ => false end.
+Definition visible_pieces (s : selection) : list piece :=
+  match header_range s with
+  | Some _ => s_pieces s
+  | None => filter (fun p => negb (is_array_header p)) (s_pieces s)
+  end.
+(* [header range; ids written into the program (if it has an ids line); is the index a constant
+   (if the program uses an index); per execution the ids grown; pieces recognisable in the text] *)
 Definition enc_script (s : selection) (missing : list Z) : val :=
-  VL [enc_range (header_range s); enc_ids (s_ids s); vbool (s_rewrite s);
+  VL [enc_range (header_range s);
+      if shows_ids s then enc_ids (s_ids s) else VN;
+      if uses_index s then vbool (s_rewrite s) else VN;
       VL (map (fun r => VL (map VZ (grown_by_run s missing r))) (runs s));
-      VL (map (fun p => VZ (piece_id p)) (s_pieces s))].
+      VL (map (fun p => VZ (piece_id p)) (visible_pieces s))].
 
 (* ================= template strings ================= *)
 Open Scope string_scope.
